@@ -5,17 +5,29 @@
    The kernel may also return early: EINTR at any time, and (timed waits)
    ETIMEDOUT before the deadline -- these are the `choice` of a step.
    One owner (the only thread that ever P's a given semaphore), any number of posters.
-   The values written come from Gen/Sites.v.  No proofs here. *)
+   The values written come from Gen/Sites.v; the two comparisons of nsync_time values the C code makes
+   (abs_deadline against nsync_time_no_deadline, abs_deadline against nsync_time_now ()) are the TRANSLATED
+   nsync_time_cmp of Gen/Time.v (lexicographic on (sec, nsec), as in C, also for non-normalized input).
+   The clock is READ in one step (a scheduling point of the harness: `clock` events) which logs the value
+   read in the owner's pc; the decision `nsync_time_cmp (abs_deadline, now) <= 0` is a LATER step that uses
+   the logged value only (the clock may have moved on, posts may have arrived in between).
+   No proofs here. *)
 From NsyncBase Require Import CSem.
-From NsyncGen Require Import Consts Sites.
+From NsyncGen Require Import Consts Sites Time.
 From Coq Require Import List ZArith Bool.
 Import ListNotations.
 Local Open Scope Z_scope.
 
 Record tm := mk_tm { t_sec : Z; t_nsec : Z }.
 Definition tm_ns (t : tm) : Z := t_sec t * 1000000000 + t_nsec t.
+Definition to_ts (t : tm) : timespec := mk_timespec (t_sec t) (t_nsec t).
+(* nsync_time_cmp (abs_deadline, nsync_time_no_deadline) != 0 is false *)
 Definition is_no_deadline (t : tm) : bool :=
-  (t_sec t =? time_no_deadline_sec) && (t_nsec t =? time_no_deadline_nsec).
+  nsync_time_cmp (to_ts t) (mk_timespec time_no_deadline_sec time_no_deadline_nsec) =? 0.
+(* what clock_gettime stores when the clock stands at c ns (harness/rt/vrt.c: vrt_clock_gettime) *)
+Definition tm_of_ns (c : Z) : tm := mk_tm (c / 1000000000) (c mod 1000000000).
+(* nsync_time_cmp (abs_deadline, now) <= 0, `now` being the value nsync_time_now () returned earlier *)
+Definition timed_out (d rd : tm) : bool := nsync_time_cmp (to_ts d) (to_ts rd) <=? 0.
 (* Linux timespec64_valid *)
 Definition ts_valid (t : tm) : bool := (0 <=? t_sec t) && (0 <=? t_nsec t) && (t_nsec t <? 1000000000).
 (* the timespec nsync_mu_semaphore_p_with_deadline hands to the kernel (absolute-timeout branch):
@@ -27,11 +39,18 @@ Definition ts_of (d : tm) : option tm :=
 Inductive opc :=               (* owner *)
 | OIdle
 | PLoad | PFutex | PSleep | PCas (i : Z)
-| TLoad (d : tm) | TFutex (d : tm) | TSleep (d : tm) | TClock (d : tm) | TCas (d : tm) (i : Z)
+| TLoad (d : tm) | TFutex (d : tm) | TSleep (d : tm) | TCas (d : tm) (i : Z)
+| TClock (d : tm)              (* futex returned ETIMEDOUT: about to call nsync_time_now () *)
+| TDecide (d rd : tm)          (* nsync_time_now () returned rd: about to evaluate nsync_time_cmp (abs_deadline, rd) <= 0 *)
 | OCrash.
 Inductive ppc := VIdle | VLoad | VCas (old : Z) | VWake.   (* a poster *)
 
 Inductive ores := RNone | ROk | RTimedOut.   (* result of the owner's last completed call *)
+(* log entry of a completed call; a timeout carries the clock value the call had read when it decided *)
+Inductive res := ResOk | ResTimedOut (rd : tm).
+Record centry := mk_ce { ce_arg : option tm;   (* None = P, Some d = P_with_deadline d *)
+                         ce_begin : Z;         (* the clock when the call made its first step *)
+                         ce_res : res }.
 
 Record world := mk_w {
   word : Z;            (* the futex word = semaphore count *)
@@ -41,8 +60,8 @@ Record world := mk_w {
   last : ores;
   posters : list (ppc * nat); (* pc, remaining V calls *)
   nP : Z; nV : Z;      (* ghost: successful P / V CASes *)
-  ret0 : Z;            (* ghost: calls that returned 0 *)
-  early : Z            (* ghost: ETIMEDOUT returns with clock < deadline (must stay 0) *)
+  cbeg : Z;            (* ghost: the clock at the first step of the owner's current call *)
+  rets : list centry   (* ghost: the completed calls, newest first *)
 }.
 
 Inductive actor := Owner | Poster (k : nat) | Tick (dt : Z).
@@ -53,33 +72,38 @@ Inductive ev :=
 | EvLoad (site : Z) (v : Z) | EvCas (site : Z) (old new : Z) (ok : bool)
 | EvFutexWait (res : Z)       (* 0 = slept/woken; else errno *)
 | EvFutexTs (ts : option tm)  (* what is passed to the kernel *)
-| EvWake (n : Z) | EvClock | EvRet (r : Z) | EvTick | EvNone | EvCrash.
+| EvWake (n : Z)
+| EvClock (rd : tm)           (* nsync_time_now () returned rd *)
+| EvDecide (expired : bool)   (* thread-local: the comparison of the deadline with the value read *)
+| EvRet (r : Z) | EvTick | EvNone | EvCrash.
 
 Definition set_owner (w : world) (o : opc) : world :=
-  mk_w (word w) (clock w) o (oprog w) (last w) (posters w) (nP w) (nV w) (ret0 w) (early w).
+  mk_w (word w) (clock w) o (oprog w) (last w) (posters w) (nP w) (nV w) (cbeg w) (rets w).
 Definition set_word (w : world) (v : Z) : world :=
-  mk_w v (clock w) (owner w) (oprog w) (last w) (posters w) (nP w) (nV w) (ret0 w) (early w).
+  mk_w v (clock w) (owner w) (oprog w) (last w) (posters w) (nP w) (nV w) (cbeg w) (rets w).
 Fixpoint lupd {A} (l : list A) (k : nat) (v : A) : list A :=
   match l, k with [], _ => [] | _ :: t, O => v :: t | x :: t, S k' => x :: lupd t k' v end.
 Definition set_poster (w : world) (k : nat) (p : ppc * nat) : world :=
-  mk_w (word w) (clock w) (owner w) (oprog w) (last w) (lupd (posters w) k p) (nP w) (nV w) (ret0 w) (early w).
-Definition ret_ok (w : world) : world :=
-  mk_w (word w) (clock w) OIdle (oprog w) ROk (posters w) (nP w) (nV w) (ret0 w + 1) (early w).
-Definition ret_timeout (w : world) (d : tm) : world :=
-  mk_w (word w) (clock w) OIdle (oprog w) RTimedOut (posters w) (nP w) (nV w) (ret0 w)
-       (if clock w <? tm_ns d then early w + 1 else early w).
+  mk_w (word w) (clock w) (owner w) (oprog w) (last w) (lupd (posters w) k p) (nP w) (nV w) (cbeg w) (rets w).
+(* the call with argument a returns 0 *)
+Definition ret_ok (w : world) (a : option tm) : world :=
+  mk_w (word w) (clock w) OIdle (oprog w) ROk (posters w) (nP w) (nV w) (cbeg w) (mk_ce a (cbeg w) ResOk :: rets w).
+(* the call with deadline d returns ETIMEDOUT, having read rd from the clock *)
+Definition ret_timeout (w : world) (d rd : tm) : world :=
+  mk_w (word w) (clock w) OIdle (oprog w) RTimedOut (posters w) (nP w) (nV w) (cbeg w)
+       (mk_ce (Some d) (cbeg w) (ResTimedOut rd) :: rets w).
 Definition incP (w : world) : world :=
-  mk_w (word w) (clock w) (owner w) (oprog w) (last w) (posters w) (nP w + 1) (nV w) (ret0 w) (early w).
+  mk_w (word w) (clock w) (owner w) (oprog w) (last w) (posters w) (nP w + 1) (nV w) (cbeg w) (rets w).
 Definition incV (w : world) : world :=
-  mk_w (word w) (clock w) (owner w) (oprog w) (last w) (posters w) (nP w) (nV w + 1) (ret0 w) (early w).
+  mk_w (word w) (clock w) (owner w) (oprog w) (last w) (posters w) (nP w) (nV w + 1) (cbeg w) (rets w).
 
 Definition owner_asleep (w : world) : bool := match owner w with PSleep | TSleep _ => true | _ => false end.
 
 (* site ids: 100 nsync_mu_semaphore_p, 200 _p_with_deadline, 300 _v; + ordinal in Gen/Sites.v *)
 Definition begin_owner (w : world) : world :=
   match owner w, oprog w with
-  | OIdle, None :: rest => mk_w (word w) (clock w) PLoad rest (last w) (posters w) (nP w) (nV w) (ret0 w) (early w)
-  | OIdle, Some d :: rest => mk_w (word w) (clock w) (TLoad d) rest (last w) (posters w) (nP w) (nV w) (ret0 w) (early w)
+  | OIdle, None :: rest => mk_w (word w) (clock w) PLoad rest (last w) (posters w) (nP w) (nV w) (clock w) (rets w)
+  | OIdle, Some d :: rest => mk_w (word w) (clock w) (TLoad d) rest (last w) (posters w) (nP w) (nV w) (clock w) (rets w)
   | _, _ => w
   end.
 
@@ -100,7 +124,7 @@ Definition step_owner (w0 : world) (c : choice) : world * ev :=
       match c with CEintr => (set_owner w PLoad, EvFutexWait EINTR) | _ => (w, EvNone) end
   | PCas i =>
       let new := nsync_mu_semaphore_p_cas1_new i in
-      if word w =? i then (ret_ok (incP (set_word w new)), EvCas 102 i new true)
+      if word w =? i then (ret_ok (incP (set_word w new)) None, EvCas 102 i new true)
       else (set_owner w PLoad, EvCas 102 i new false)
   | TLoad d => let i := word w in
                if nsync_mu_semaphore_p_with_deadline_cas1_guard 0 i then (set_owner w (TCas d i), EvLoad 201 i) else (set_owner w (TFutex d), EvLoad 201 i)
@@ -132,11 +156,15 @@ Definition step_owner (w0 : world) (c : choice) : world * ev :=
                    end
       end
   | TClock d =>
-      (* nsync_time_cmp (abs_deadline, nsync_time_now ()) <= 0 *)
-      if tm_ns d <=? clock w then (ret_timeout w d, EvRet ETIMEDOUT) else (set_owner w (TLoad d), EvClock)
+      (* now = nsync_time_now (): the value is read here and kept in the pc *)
+      let rd := tm_of_ns (clock w) in (set_owner w (TDecide d rd), EvClock rd)
+  | TDecide d rd =>
+      (* if (... && nsync_time_cmp (abs_deadline, now) <= 0) result = ETIMEDOUT;  then the loop condition:
+         result != 0 leaves the loop; otherwise i == 0 here, so the loop is repeated from the load *)
+      if timed_out d rd then (ret_timeout w d rd, EvDecide true) else (set_owner w (TLoad d), EvDecide false)
   | TCas d i =>
       let new := nsync_mu_semaphore_p_with_deadline_cas1_new i in
-      if word w =? i then (ret_ok (incP (set_word w new)), EvCas 202 i new true)
+      if word w =? i then (ret_ok (incP (set_word w new)) (Some d), EvCas 202 i new true)
       else (set_owner w (TLoad d), EvCas 202 i new false)
   end.
 
@@ -165,19 +193,32 @@ Definition step (w : world) (a : actor) (c : choice) : world * ev :=
   match a with
   | Owner => step_owner w c
   | Poster k => step_poster w k
-  | Tick dt => if 0 <=? dt then (mk_w (word w) (clock w + dt) (owner w) (oprog w) (last w) (posters w) (nP w) (nV w) (ret0 w) (early w), EvTick)
-               else (w, EvNone)
+  | Tick dt => if 0 <=? dt then (mk_w (word w) (clock w + dt) (owner w) (oprog w) (last w) (posters w) (nP w) (nV w) (cbeg w) (rets w), EvTick)
+               else (w, EvNone)     (* the clock never goes back *)
   end.
 
 Definition init (prog : list (option tm)) (posts : list nat) (clock0 : Z) : world :=
-  mk_w 0 clock0 OIdle prog RNone (map (fun n => (VIdle, n)) posts) 0 0 0 0.
+  mk_w 0 clock0 OIdle prog RNone (map (fun n => (VIdle, n)) posts) 0 0 clock0 [].
 
 Definition run (w : world) (sched : list (actor * choice)) : world :=
   fold_left (fun w ac => fst (step w (fst ac) (snd ac))) sched w.
 
-(* ---------- statements (used by Props/Properties_C12.v) ---------- *)
+(* ---------- statements (used by Props/Properties_C12.v, _C15.v) ---------- *)
 Definition pending_wake (w : world) : Prop := exists k n, nth_error (posters w) k = Some (VWake, n).
 Definition normalized (d : tm) : Prop := 0 <= t_nsec d < 1000000000.
 Definition prog_ok (prog : list (option tm)) : Prop :=
   forall d, In (Some d) prog -> normalized d.      (* any seconds value, also before the epoch *)
 Definition total_posts (posts : list nat) : Z := Z.of_nat (fold_right Nat.add O posts).
+(* the number of completed calls that returned 0 (read off the log, not a counter) *)
+Fixpoint n_ok (l : list centry) : Z :=
+  match l with [] => 0 | e :: t => (match ce_res e with ResOk => 1 | ResTimedOut _ => 0 end) + n_ok t end.
+Definition ret0 (w : world) : Z := n_ok (rets w).
+(* the V calls that have not (yet) incremented the word: read off the posters' program counters *)
+Definition pend1 (p : ppc * nat) : Z :=
+  match fst p with
+  | VIdle | VWake => Z.of_nat (snd p)             (* not started / CAS done: only the remaining calls *)
+  | VLoad | VCas _ => Z.of_nat (snd p) + 1        (* the current call has not succeeded yet *)
+  end.
+Fixpoint pend (l : list (ppc * nat)) : Z :=
+  match l with [] => 0 | p :: t => pend1 p + pend t end.
+Definition posts_pending (w : world) : Z := pend (posters w).
